@@ -23,7 +23,7 @@ func init() {
 			"Producers: every fork signature (Sign, SignASN1, PrivateKey.Sign, BlindKeySign) verifies under crypto/ecdsa and every crypto/ecdsa signature verifies here. " +
 			"Fault enumeration: GenerateKey and every signing entry point under a scripted entropy reader that delivers f bytes in a given chunking (all at once, byte by byte, seeded splits, interleaved zero-length reads) and then fails permanently, f = 0..need+1 exhaustively (need measured on a never-failing reader): a nil error implies the reader never failed and at least the needed bytes were consumed; a failed reader implies a non-nil error and nil key / r,s / signature. " +
 			"distinct_nontrivial = distinct (curve, case class, r class, s class | DER class | entry point, fault position, chunking) keys",
-		Floors:      []string{"verify_agree_accept", "verify_agree_reject", "asn1_agree_accept", "asn1_agree_reject", "fork_signature_verifies_under_std", "std_signature_verifies_under_fork", "fault_error_returned", "fault_success_full_entropy", "s_plus_N_class", "asn1_bitflips", "wrapped_r_signatures", "history_verify_agrees", "constructed_doubling_case_accepted_by_std", "special_public_keys_accepted_by_std", "bulk_signatures_verified"},
+		Floors:      []string{"one_octet_signatures_accepted_by_std", "keys_on_generic_curve_objects", "verify_agree_accept", "verify_agree_reject", "asn1_agree_accept", "asn1_agree_reject", "fork_signature_verifies_under_std", "std_signature_verifies_under_fork", "fault_error_returned", "fault_success_full_entropy", "s_plus_N_class", "asn1_bitflips", "wrapped_r_signatures", "history_verify_agrees", "constructed_doubling_case_accepted_by_std", "special_public_keys_accepted_by_std", "bulk_signatures_verified"},
 		Assumptions: []string{"crypto/ecdsa of the Go toolchain that builds the harness is the reference", "entropy failures are permanent and a failing Read delivers no bytes"},
 		Run:         runC13,
 	})
@@ -798,6 +798,51 @@ func c13Constructed(c *core.Ctx, curve elliptic.Curve, r *core.Rand) {
 			key.asn1Both(c, digest, derSig(rr, s), "special-public-key:"+sp.name)
 			key.verifyBoth(c, flipBit(digest, 9), rr, s, "special-public-key:"+sp.name+":other-digest")
 		}
+	}
+	// the shortest signatures there are: r and s of one octet each (an 8-byte DER signature). r must be the x-coordinate of
+	// a point R; the key is recovered from (r, s, e): Q = r^-1 (s*R - e*G)
+	for rv := int64(1); rv < 128; rv++ {
+		enc := make([]byte, 1+(p.BitSize+7)/8)
+		enc[0] = 2 + byte(rv&1)
+		big.NewInt(rv).FillBytes(enc[1:])
+		Rx, Ry := elliptic.UnmarshalCompressed(curve, enc)
+		if Rx == nil {
+			continue
+		}
+		for _, sv := range []int64{1, 2, 127, 128, 255} {
+			rr, ss := big.NewInt(rv), big.NewInt(sv)
+			e := new(big.Int).SetBytes(ScalarBytes(r, N, w))
+			digest := digestFor(curve, e)
+			sRx, sRy := curve.ScalarMult(Rx, Ry, ss.Bytes())
+			eGx, eGy := curve.ScalarBaseMult(new(big.Int).Sub(N, e).Bytes()) // -e*G
+			tx, ty := curve.Add(sRx, sRy, eGx, eGy)
+			qx, qy := curve.ScalarMult(tx, ty, inv(rr).Bytes())
+			if qx.Sign() == 0 && qy.Sign() == 0 {
+				continue
+			}
+			key := mkKey(qx, qy)
+			if stdecdsa.Verify(&key.std.PublicKey, digest, rr, ss) {
+				c.Class("one_octet_signatures_accepted_by_std")
+			}
+			key.verifyBoth(c, digest, rr, ss, "one-octet-r-and-s")
+			key.asn1Both(c, digest, derSig(rr, ss), "one-octet-r-and-s")
+		}
+		if rv > 40 && !c.Thorough() {
+			break
+		}
+	}
+	// the same key and signature with the key's Curve field holding the generic parameter object (elliptic.CurveParams)
+	// instead of the named curve: crypto/ecdsa verifies those through its generic path, with the same verdicts
+	gk := c13MkKey(r, curve)
+	for t := 0; t < 3; t++ {
+		digest := r.Bytes([]int{20, 32, 66}[t])
+		rr, ss, err := stdecdsa.Sign(r, gk.std, digest)
+		must(err)
+		generic := &c13Key{curve: curve, fork: &ecdsa.PrivateKey{PublicKey: ecdsa.PublicKey{Curve: curve.Params(), X: gk.std.X, Y: gk.std.Y}}, std: &stdecdsa.PrivateKey{PublicKey: stdecdsa.PublicKey{Curve: curve, X: gk.std.X, Y: gk.std.Y}}}
+		generic.verifyBoth(c, digest, rr, ss, "generic-curve-object:valid")
+		generic.verifyBoth(c, flipBit(digest, 1), rr, ss, "generic-curve-object:other-digest")
+		generic.asn1Both(c, digest, derSig(rr, ss), "generic-curve-object:valid")
+		c.Class("keys_on_generic_curve_objects")
 	}
 	c.Distinctf("%s:constructed", p.Name)
 }
